@@ -176,7 +176,7 @@ func ruleC14StrategyTable(c *Ctx) {
 			}
 			n := 0
 			for _, e := range p.Effects {
-				if e.Kind == "call" && e.Callee == "dyn" && len(e.Args) > 0 && (e.Args[0].Op == "freevar" || e.Args[0].Op == "load") && !strings.Contains(e.Args[0].String(), "errors") {
+				if e.Kind == "call" && e.Callee == "dyn" && len(e.Args) > 0 && (e.Args[0].Op == "freevar" || e.Args[0].Op == "load" || e.Args[0].Op == "field" || e.Args[0].Op == "param") && !strings.Contains(e.Args[0].String(), "errors") {
 					n++
 				}
 			}
@@ -219,6 +219,7 @@ func ruleC14StrategyTable(c *Ctx) {
 		var nArgs, nUser, nAdd, nGo int
 		iArgs, iGo, iAdd := -1, -1, -1
 		var goFn *ssa.Function
+		var goStmt *ssa.Go
 		for i, e := range p.Effects {
 			switch {
 			case e.Kind == "call" && (strings.HasSuffix(e.Callee, "FuncArgReader")):
@@ -237,6 +238,10 @@ func ruleC14StrategyTable(c *Ctx) {
 				if g, isGo := e.Instr.(*ssa.Go); isGo {
 					if mc, isMC := g.Call.Value.(*ssa.MakeClosure); isMC {
 						goFn = mc.Fn.(*ssa.Function)
+					} else if sc := g.Call.StaticCallee(); sc != nil && sc.Blocks != nil && c.P.InModule(sc) {
+						// the body of the goroutine is a named function or a method of a record that carries what
+						// the closure used to capture: `go call.deliver(&slot)`
+						goFn, goStmt = sc, g
 					}
 				}
 			}
@@ -305,6 +310,18 @@ func ruleC14StrategyTable(c *Ctx) {
 						for _, st := range storesTo(a) {
 							if st.Parent() == goFn {
 								okSlot = true
+							}
+						}
+						// the slot is handed to the goroutine's function as an argument: that parameter is stored through
+						if goStmt != nil {
+							for k, arg := range goStmt.Call.Args {
+								if arg == ssa.Value(a) && k < len(goFn.Params) && goFn.Params[k].Referrers() != nil {
+									for _, u := range *goFn.Params[k].Referrers() {
+										if st, isSt := u.(*ssa.Store); isSt && st.Addr == ssa.Value(goFn.Params[k]) {
+											okSlot = true
+										}
+									}
+								}
 							}
 						}
 					}
